@@ -38,6 +38,33 @@ func verifRoot() string {
 // useRaceWorker: the property asks for the race-detector build of the worker (C16).
 var useRaceWorker bool
 
+// raceForArgs: plans of a Race property whose mode is "locks" run on the ordinary build (instrumented
+// mutex registries on, race detector off); all others on the race build. The mode of a plan is a pure
+// function of (property, tier, seed, index), or is read from the plan file.
+func raceForArgs(args []string) bool {
+	get := func(k string) string {
+		for i := 0; i+1 < len(args); i++ {
+			if args[i] == k {
+				return args[i+1]
+			}
+		}
+		return ""
+	}
+	if pf := get("-plan"); pf != "" {
+		if p, err := sim.LoadPlan(pf); err == nil {
+			return p.Mode != "locks"
+		}
+		return true
+	}
+	pr := props.All[get("-prop")]
+	if pr == nil {
+		return true
+	}
+	seed, _ := strconv.ParseUint(get("-seed"), 10, 64)
+	idx, _ := strconv.Atoi(get("-from"))
+	return props.PlanFor(pr, get("-tier"), seed, idx).Mode != "locks"
+}
+
 func raceLogDir() string { return fmt.Sprintf("%s/dst-race-%d", os.TempDir(), os.Getpid()) }
 
 func workerEnv(multiP bool) []string {
@@ -62,7 +89,7 @@ func runWorker(args []string, multiP bool, perRun time.Duration, each func(o run
 	exe, _ := os.Executable()
 	cmd := exec.Command(exe, append([]string{"worker"}, args...)...)
 	cmd.Env = workerEnv(multiP)
-	if useRaceWorker {
+	if useRaceWorker && raceForArgs(args) {
 		// the race-detector build of the same program; its reports go to a file the worker reads back
 		cmd = exec.Command(strings.TrimSuffix(exe, "-race")+"-race", append([]string{"worker"}, args...)...)
 		os.MkdirAll(raceLogDir(), 0o755)
